@@ -999,7 +999,9 @@ def ishashable(obj: tp.Any) -> compat.TypeIs[tp.Hashable]:
         >>> ishashable(list())
         False
     """
-    return __hashgetter(obj) is not None
+    # The hash of an object is defined by its class (a class object itself is hashable,
+    #   whatever `__hash__` it defines for its instances).
+    return __hashgetter(obj.__class__) is not None
 
 
 @compat.cache
